@@ -1,6 +1,6 @@
 """C01 - parsing is total: Ok or Err, never a panic, abort or hang; returned ASTs render."""
 import re
-from .. import build, core, flow, gens
+from .. import build, core, flow, gens, values
 from ..core import hx, unhx
 
 def quadratic(n, op=" + ", lp="( ", rp=" )"):
@@ -93,7 +93,7 @@ class P:
             "corruptions of valid programs, and 21 deep/long families (nesting, prefix runs, right-assoc chains, ternary "
             "chains, name runs, left-deep sums, calls) at n in {10,100,1000,10000,100000}, 17 height amplifiers (a tall chain nested "
             "through every child position of every node kind: levels x chain in {2x40, 3x100, 3x200, 30x60, 40x120}), each deep case in its own "
-            "process on a 2 MiB thread. Non-trivial = distinct input of more than one character.")
+            "process on a 2 MiB thread; EXEC of programs whose VALUES grow one level per statement (ten shapes x n up to 20000, and doubling widths). Non-trivial = distinct input of more than one character.")
     assumptions = ["stack use is measured on a 2 MiB thread (Rust's default for spawned threads) in a debug build"]
     trusted_extra = []
 
@@ -128,6 +128,19 @@ class P:
         deep += [("PARSE:" + hx(s), (name, n)) for name, n, s in amplifier_families()]
         deep += [("PARSE:" + hx(s), (name, n)) for name, n, s in chain_nest_families()]
         cases += flow.mk_cases("!deep", deep)
+        # execute(): values that grow one level per STATEMENT (no statement is deep): Value's clone, comparison and drop are
+        # recursive, the engine must refuse the value (finding D24, fixed by d4f0af3) - never exhaust the stack
+        grow = []
+        for n in ([10, 254, 255, 256, 300, 2000, 20000] if tier == "quick" else [10, 100, 254, 255, 256, 257, 300, 1000, 2000, 20000, 200000]):
+            for name, first, step, last in (("list", "a=[1];", "a=[a];", "1"), ("map-value", "a={1:2};", "a={1:a};", "1"), ("map-key", "a={1:2};", "a={a:1};", "1"),
+                                            ("two-levels", "a=[1];", "a=[[a]];", "1"), ("two-names", "a=[1];b=[2];", "a=[b];b=[a];", "1"),
+                                            ("in-call", "a=[1];", "a=[max(1,2),a];", "1"), ("in-branch", "a=[1];", "a=true?[a]:0;", "1"),
+                                            ("compared", "a=[1];", "a=[a];", "a==a"), ("in-member", "a=[1];", "a=[a];", "1 in a"),
+                                            ("mixed", "a=[1];", "a={'k':[a]};", "[a,a]==[a,a]")):
+                grow.append(("EXEC:1:" + hx(first + step * n + last), ("grow-" + name, n)))
+        for n in (5, 12, 18):
+            grow.append(("EXEC:1:" + hx("a=[1];" + "a=[a,a];" * n + "a==a"), ("grow-wide", n)))
+        cases += flow.mk_cases("!grow", grow)
         return cases
 
     def _split(self, lines):
@@ -161,6 +174,9 @@ class P:
     def compare(self, case, impl, model):
         if impl == model:
             return None
+        if case.gen == "!grow":
+            eq, abst = values.exec_equal(impl, model)
+            return None if (eq or abst) else "execute outcome"
         if case.gen == "!deep" and impl.split(":")[0] == model.split(":")[0] == "OK" and len(impl) > 100000:
             return None
         return "parse-outcome+ast+expr+describe"
@@ -178,5 +194,5 @@ class P:
                 return "violates", "expr()/describe() of the returned AST panicked"
             return "ok", ""
         if c in ("PANIC", "ABORT", "HANG", "MISSING"):
-            return "violates", "parse_expression did not return: " + c
+            return "violates", ("execute" if case.gen == "!grow" else "parse_expression") + " did not return: " + c
         return "unknown", impl[:80]
